@@ -25,12 +25,17 @@ RULE = ("random sessions of 5-30 operations (listscripts, getscript, putscript, 
         "session with >= 5 steps; distinct = distinct sessions (by seed and step list).")
 ASSUMPTIONS = [
     "R-MS (rv/msmodel.py) is the reference model of a conforming RFC 5804 server",
+    "a small stratum runs the same sessions over a real socket.socketpair() with the model "
+    "in a thread, to confirm the monitors agree on the real socket class; a wall-clock "
+    "socket timeout there would be reported as inconclusive, never as a violation",
     "script content compared modulo line endings and trailing blank lines",
 ]
 FLOORS = {"quick": {"sessions": 5000, "steps": 60000, "steps:NO-outcomes": 6000,
-                    "emulated-renames": 1000, "segmented-sessions": 2000},
+                    "emulated-renames": 1000, "segmented-sessions": 2000,
+                    "socketpair-sessions": 150},
           "thorough": {"sessions": 500000, "steps": 6000000, "steps:NO-outcomes": 600000,
-                       "emulated-renames": 90000, "segmented-sessions": 200000}}
+                       "emulated-renames": 90000, "segmented-sessions": 200000,
+                       "socketpair-sessions": 3000}}
 SHARD_TIMEOUT = {"quick": 600, "thorough": 3000}
 
 NAMES_CONV = ["main", "vacation", "x y", "été", "spam-rules"]
@@ -40,8 +45,13 @@ NAMES_ANY = ["main", 'q"q', "{5}", "OK", "a\\b", "ACTIVE"]
 def plan(tier, seed):
     n = 6000 if tier == "quick" else 600000
     k = 16 if tier == "quick" else 64
-    return [{"w": "sessions", "n": e - s, "rs": seed * 1000003 + i}
-            for i, (s, e) in enumerate(split(n, k))]
+    shards = [{"w": "sessions", "n": e - s, "rs": seed * 1000003 + i}
+              for i, (s, e) in enumerate(split(n, k))]
+    # sanity stratum over a real socket.socketpair() (server model in a thread)
+    ns = 200 if tier == "quick" else 4000
+    shards += [{"w": "socketpair", "n": e - s, "rs": seed * 7919 + 50 + i}
+               for i, (s, e) in enumerate(split(ns, 4 if tier == "quick" else 16))]
+    return shards
 
 
 def norm(text):
@@ -76,7 +86,7 @@ def expected(srv, op, args, emulated):
     return "any"
 
 
-def run_session(rng, res: Result, idx):
+def run_session(rng, res: Result, idx, real_socket=False):
     conv = rng.random() < 0.6
     names = NAMES_CONV if conv else NAMES_ANY
     version = rng.random() < 0.6
@@ -99,7 +109,20 @@ def run_session(rng, res: Result, idx):
             srv.final("OK", None, b"Listscripts completed.")
         srv.do_listscripts = do_list
     seg = ms.Seg(rng=random.Random(rng.randrange(1 << 30))) if segmented else ms.Seg()
-    sess = mslab.Session(srv, seg)
+    if real_socket:
+        sess = mslab.SocketpairSession(srv)
+        segmented = False
+        res.count("socketpair-sessions")
+    else:
+        sess = mslab.Session(srv, seg)
+    try:
+        _run_steps(rng, res, idx, sess, srv, conv, names, version, segmented, real_socket)
+    finally:
+        if real_socket:
+            sess.close()
+
+
+def _run_steps(rng, res, idx, sess, srv, conv, names, version, segmented, real_socket):
     r = sess.connect("user", "pw")
     if r != ("ret", True):
         res.violation({"step": "connect", "problem": "connect-failed"},
@@ -180,6 +203,8 @@ def run_session(rng, res: Result, idx):
                                "got %r want %r" % (got, want))
         if problem is None:
             left, buf = sess.unread()
+            if real_socket:
+                left = b""  # bytes in flight live in the kernel; only the client buffer
             if left or buf:
                 problem = ("bytes-left-unread", repr((left[:60], buf[:60] if buf else buf)))
         res.monitor("session-lockstep", problem is not None)
@@ -200,5 +225,9 @@ def run_session(rng, res: Result, idx):
 
 def run_shard(tier, shard, res: Result):
     rng = random.Random(shard["rs"])
+    if shard["w"] == "socketpair":
+        for i in range(shard["n"]):
+            run_session(rng, res, shard["rs"] * 100000 + i, real_socket=True)
+        return
     for i in range(shard["n"]):
         run_session(rng, res, shard["rs"] * 100000 + i)
